@@ -126,9 +126,16 @@ def c14_3(c: Ctx) -> None:
 
     pid = {n.id for n in puts}
 
+    # "this very event is already in this bus's history": the history is written only after a successful put_nowait (checked below), so the event was enqueued by an
+    # earlier dispatch to this bus — returning it again is not dropping it
+    in_hist = {f'{self_}.event_history.get({ev}.event_id) is {ev}', f'{ev}.event_id in {self_}.event_history', f'{self_}.event_history.get({ev}.event_id) is not None'}
+    htests = {n.id for n in g.live_nodes() if n.kind == 'if' and any(U(x) in in_hist for x in (n.ast.test.values if isinstance(n.ast.test, ast.BoolOp) and isinstance(n.ast.test.op, ast.And) else [n.ast.test]))}
+
     def edge_ok(n, e, dd):
         if e.is_exc:
             return None
+        if n.id in htests and e.label == 'true':
+            return None  # already accepted earlier
         if not why and n.id in qtests and e.label == 'false' and dd.get('#started') == 'T':
             return None  # infeasible by the invariant (after self._start() under a running loop)
         return dd
